@@ -30,10 +30,15 @@ def big_value(rng, w, n, p):
     ps = p[0] == "i"
     pmax = (1 << (b - 1)) - 1 if ps else (1 << b) - 1
     pmin = -(1 << (b - 1)) if ps else 0
-    c = rng.randrange(8)
-    if c < 5:
+    c = rng.randrange(10)
+    if c < 4:
         z = rng.choice([pmax, pmax + 1, pmin, pmin - 1, 0, -1, 1, pmax - 1])
         return "boundary", pat(z, W)
+    if c < 6 and n >= 2:
+        # low digit = a valid (sign-extended) target value, upper digits say otherwise
+        low = pat(rng.choice([pmax, pmin, -1, 0, 1, pmin + 1, rng.randrange(pmin, pmax + 1)]), w)
+        hi = rng.choice([0, (1 << (W - w)) - 1, 1, rng.randrange(1 << (W - w))])
+        return "low-digit-decoy", (hi << w) | low
     return value(rng, w, n)
 
 
